@@ -54,7 +54,7 @@ def sig_of(obj: Any) -> str:
 
 def jsonable(x: Any, depth: int = 0) -> Any:
     """Best-effort conversion to JSON-able data (for replays and samples)."""
-    if depth > 12:
+    if depth > 64:
         return repr(x)
     if x is None or isinstance(x, (bool, int, str)):
         return x
